@@ -46,6 +46,7 @@ type ColumnDef struct {
 	AutoIncrement bool
 	Null          bool
 	Unique        bool
+	UniqueFirst   bool // with both Unique and PrimaryKey: UNIQUE is written first
 	Default       interface{}
 	Collate       string
 	References    *ForeignKeyClause
@@ -84,6 +85,7 @@ func makeColumnDef(name string, typ string, cs []columnConstraint) ColumnDef {
 			cd.AutoIncrement = v.autoincrement
 		case ccUnique:
 			cd.Unique = bool(v)
+			cd.UniqueFirst = !cd.PrimaryKey
 		case ccCollate:
 			cd.Collate = string(v)
 		case ccReferences:
@@ -99,6 +101,7 @@ func makeColumnDef(name string, typ string, cs []columnConstraint) ColumnDef {
 			panic("unhandled constraint")
 		}
 	}
+	cd.UniqueFirst = cd.UniqueFirst && cd.Unique && cd.PrimaryKey
 	return cd
 }
 
